@@ -27,9 +27,9 @@ func verifHarness_Fam(prop, fam, budget, maxList int) {
 	case 9:
 		verifC09(x, b.entry)
 	case 16:
-		verifC16(x, b, fam, 3)
+		verifC16(x, b, fam, 4)
 	case 160:
-		verifC16(x, b, fam, 2)
+		verifC16(x, b, fam, 3)
 	case 17:
 		verifC17Parsed(x, b.entry)
 	case 18:
@@ -103,6 +103,10 @@ func verifC16(x0 string, b *verifB, fam int, modes int) {
 	case 1:
 		b2.caseAt = verifChoice(b.nword)
 		b2.caseHow = verifChoice(3)
+	case 2:
+		// one arbitrary byte (all 256 values) between two blanks
+		b2.gapAt = verifChoice(b.ntok)
+		b2.gapText = " " + verifBytes(1) + " "
 	default:
 		b2.gapAt = verifChoice(b.ntok)
 		b2.gapText = " " + verifBytesIn(2, " \t\n/*-#") + " "
@@ -110,7 +114,7 @@ func verifC16(x0 string, b *verifB, fam int, modes int) {
 	verifFamilies[fam](b2)
 	x := b2.text
 	verifObserve("y", x)
-	if mode == 2 {
+	if mode >= 2 {
 		// arbitrary trivia bytes: only inputs whose gap really is trivia are re-spellings
 		if !verifOnlyTrivia(b2.gapText) {
 			verifReach("C16/not-trivia")
@@ -133,6 +137,8 @@ func verifC16Mode(m int) string {
 		return "trivia"
 	case 1:
 		return "case"
+	case 2:
+		return "trivia-byte"
 	}
 	return "trivia-bytes"
 }
@@ -170,4 +176,46 @@ func verifFirstMessage(err error) string {
 		return me[0].Message
 	}
 	return "?"
+}
+
+// verifHarness_FamMut: a family sentence with one mutation at a symbolic token
+// position (mut 0: truncated there, 1: that token deleted, 2: replaced by ')');
+// wrap 1 puts expression sentences into "SELECT <expr>, 1 FROM t".
+func verifHarness_FamMut(prop, fam, budget, maxList, mut, wrap int) {
+	b := verifNewB(maxList, budget)
+	verifFamilies[fam](b)
+	b2 := b.again()
+	k := verifChoice(b.ntok)
+	switch mut {
+	case 0:
+		b2.limit = k
+	case 1:
+		b2.dropAt = k
+	default:
+		b2.replaceAt = k
+	}
+	verifFamilies[fam](b2)
+	x := b2.text
+	entry := b.entry
+	if wrap == 1 && (entry == verifEExpr || entry == verifEType) {
+		if entry == verifEExpr {
+			x = "SELECT " + x + ", 1 FROM t"
+		} else {
+			x = "SELECT CAST(a AS " + x + "), 1 FROM t"
+		}
+		entry = verifEQuery
+	}
+	verifObserve("x", x)
+	switch prop {
+	case 3:
+		verifC03(x, entry)
+	case 4:
+		verifC04(x, entry)
+	case 5:
+		verifC05(x, entry)
+	case 9:
+		verifC09(x, entry)
+	case 10:
+		verifC10(x, entry)
+	}
 }
